@@ -38,6 +38,7 @@ TYPES = [
     ("Optional[Dict[str, int]]", [('{"k": 2}', {"k": 2})]),
     ("PositiveInt", [("3", "PositiveInt(3)")]),
     ("Optional[str]", [("abc", "abc")]),
+    ("Optional[Union[int, str]]", [("5", 5), ("abc", "abc"), ("null", None)]),
     ("List[Optional[float]]", [("[1.5, null]", [1.5, None])]),
     ("Union[List[int], List[str]]", [('["7", "abc"]', ["7", "abc"]), ("[1, 2]", [1, 2]), ('["x"]', ["x"])]),
     ("Union[List[float], Tuple[str, ...]]", [('["1.5", "x"]', ("1.5", "x")), ("[2.5]", [2.5])]),
@@ -46,7 +47,7 @@ DEFAULTS = {
     "int": ["1", "0", "-7"], "float": ["0.5", "0.0"], "str": ["'d'", "''", "'1'"], "bool": ["False", "True"], "Optional[int]": ["None", "3"],
     "List[int]": ["[]", "[9]"] if False else ["None"], "Dict[str, int]": ["None"], "Tuple[int, str]": ["(0, 'z')"], "Color": ["Color.green"],
     "Literal['a', 'b']": ["'a'"], "Union[int, str]": ["0", "'u'"], "Optional[List[str]]": ["None"], "Optional[Dict[str, int]]": ["None"],
-    "PositiveInt": ["1"], "Optional[str]": ["None", "'s'"], "List[Optional[float]]": ["None"],
+    "PositiveInt": ["1"], "Optional[str]": ["None", "'s'"], "Optional[Union[int, str]]": ["None", "4"], "List[Optional[float]]": ["None"],
     "Union[List[int], List[str]]": ["None"], "Union[List[float], Tuple[str, ...]]": ["None"],
 }
 NAMES = ["alpha", "beta", "gamma", "n", "lr", "name", "flag", "items", "config_path", "x1", "verbose", "k"]
